@@ -1,11 +1,5 @@
 package client
 
-import "time"
-
-// VerifSetDialTimeout replaces the real-time budget of waitConnReady / grpc dial (5 s by default) for
-// the C18 harness: an execution there must not depend on a wall-clock timer.
-func VerifSetDialTimeout(c *RPCClient, d time.Duration) { c.option.dialTimeout = d }
-
 // VerifInflight reports, for the pool of addr, the number of entries in the in-flight tables
 // (batchCommandsClient.batched) and the sum of the `sent` counters of its batch clients.
 func VerifInflight(c *RPCClient, addr string) (entries int, sent int64) {
